@@ -93,7 +93,9 @@ def replay(path, leg, src, bl, free, tmp, timeout=1500):
     lines = []
     for l in out.splitlines():
         try:
-            lines.append(json.loads(l))
+            o = json.loads(l)
+            if isinstance(o, dict):
+                lines.append(o)
         except ValueError:
             pass            # a line cut off by the death of the process
     summ = [l for l in lines if l.get("type") == "summary"]
@@ -110,14 +112,14 @@ def replay(path, leg, src, bl, free, tmp, timeout=1500):
         lines.append(crash)
         probs = {}
         for l in lines:
-            if l.get("type") in ("contract", "panic", "mismatch", "hang"):
+            if l.get("type") in ("contract", "panic", "mismatch", "hang") and "sig" in l:
                 k = (l["type"], json.dumps(l["sig"], sort_keys=True))
                 probs[k] = probs.get(k, 0) + 1
         summ = [{"type": "summary", "cases": idx, "steps": 0, "observations": 1, "aborted": True,
                  "problems": [{"type": t, "sig": json.loads(s_), "count": c} for (t, s_), c in probs.items()]}]
     details = {}
     for l in lines:
-        if l.get("type") in ("contract", "panic", "mismatch", "hang"):
+        if l.get("type") in ("contract", "panic", "mismatch", "hang") and "sig" in l:
             details.setdefault((l["type"], json.dumps(l["sig"], sort_keys=True)), l)
     return summ[0], details
 
@@ -237,13 +239,13 @@ def run(run, tier, replay_path):
             drift += classify(run, s, d, what, {"leg": leg, "src": src, "bl": bl, "free": free})
             run.add_traces(s["cases"])
             steps += s["steps"]
-            obs += s["observations"]
+            obs += s.get("observations", 0)
             k = "%s/%s/%s" % ("io_uring+ring" if kind == "ring" else "polling+fallback", leg, "free" if free else "exact")
             per[k] = per.get(k, 0) + s["cases"]
             per.setdefault("by_source", {})
             per["by_source"][src] = per["by_source"].get(src, 0) + s["cases"]
             if s.get("aborted"):
-                vlib.log("NOTE: replay aborted by the watchdog: %s" % what)
+                vlib.log("NOTE: replay run ended early (watchdog or death of the process): %s" % what)
         if obs == 0:
             raise vlib.ToolError("no observation of the real pool state succeeded: binding lost (Debug format of BufferPool changed?)")
         run.note("programs_replayed", per)
